@@ -441,6 +441,8 @@ def coq_arg(kind, v):
         return '[' + '; '.join(zlit(x) for x in v) + ']'
     if kind == 'boollist':
         return '[' + '; '.join('true' if x else 'false' for x in v) + ']'
+    if kind == 'wfdata':     # C09: per field, per wavelength, (opd floats, intensity floats)
+        return '[' + '; '.join('[' + '; '.join(f'({flist(o)}, {flist(i)})' for o, i in row) + ']' for row in v) + ']'
     raise ValueError(kind)
 
 
@@ -495,6 +497,9 @@ def kernel_correspondence(man, cases, tol=None, scalars=(), arrays=(), plain_sel
                 elif o['kind'] == 'list':
                     pvl = pv if isinstance(pv, list) else [pv]
                     cmps.append(f'close_list {fhex(tol if tol is not None else 0.0)} o{j} [' + '; '.join(fhex(float.fromhex(x)) for x in pvl) + ']')
+                elif o['kind'] == 'list2':     # 2-D table, compared row-major (C09)
+                    flat2 = [x for row in pv for x in row]
+                    cmps.append(f'close_list {fhex(tol if tol is not None else 0.0)} (List.concat o{j}) [' + '; '.join(fhex(float.fromhex(x)) for x in flat2) + ']')
                 elif o['kind'] == 'boollist':
                     cmps.append(f'(if list_eq_dec Bool.bool_dec o{j} [' + '; '.join('true' if x else 'false' for x in pv) + '] then true else false)')
                 else:
